@@ -70,7 +70,7 @@ def _symbolic_worker(args):
                 import z3
 
                 if c.check() == z3.sat:
-                    path_samples.append({k: _js(v) for k, v in c.model_values(c.solver.model()).items()})
+                    path_samples.append({k: _js(v) for k, v in c.model_values(c.get_model()).items()})
             return V.claims
 
         max_paths = ob.max_paths.get(tier) if isinstance(ob.max_paths, dict) else (ob.max_paths or cfg["max_paths"])
